@@ -25,7 +25,7 @@ Lemma bin_short_tag n : 0 <= n <= 15 ->
   gbinaryShortTag (32 + n) = true /\ gbinaryEndTag (32 + n) = true /\ gbinaryTag (32 + n) = true.
 Proof.
   intros H. unfold gbinaryTag, gbinaryEndTag, gbinaryShortTag, gbinaryChunkTag. bconsts.
-  replace ((32 <=? 32 + n) && (32 + n <=? 47)) with true by lia. rewrite !orb_true_r, ?orb_true_l. auto.
+  replace ((32 <=? 32 + n) && (32 + n <=? 47)) with true by lia. rewrite ?orb_true_r, ?orb_true_l. cbn [orb]. auto.
 Qed.
 
 Lemma be2_val n : 0 <= n < 65536 -> be_val [wrap 8 (Z.shiftr n 8); wrap 8 n] = n.
@@ -54,7 +54,7 @@ Proof.
     cbn [dec_bin_loop]. rewrite zlen_nat, read_upto_app, S2. reflexivity.
   - exists 66, (wrap 8 (Z.shiftr (zlen bs) 8) :: wrap 8 (zlen bs) :: bs), (zlen bs), (bs ++ rest).
     split; [reflexivity|]. split; [reflexivity|]. split; [intros _; lia|].
-    split; [unfold get_binary_len; change (gbinaryShortTag 66) with false; cbv iota;
+    split; [unfold get_binary_len; change (gbinaryShortTag 66) with false; change (gbinaryMiddleTag 66) with false; cbv iota;
             cbn [app]; rewrite read_full_app2; cbn [bind]; rewrite be2_val by lia; reflexivity|].
     split; [rewrite app_length; lia|].
     intros fuel2 Hf. destruct fuel2 as [|f2]; [lia|].
@@ -78,7 +78,7 @@ Proof.
            4096, (firstn (Z.to_nat 4096) bs ++ enc_bin_chunks f (skipn (Z.to_nat 4096) bs) ++ rest).
     split; [reflexivity|]. split; [reflexivity|]. split; [intros _; lia|].
     split.
-    { unfold get_binary_len. change (gbinaryShortTag 65) with false. cbv iota.
+    { unfold get_binary_len. change (gbinaryShortTag 65) with false. change (gbinaryMiddleTag 65) with false. cbv iota.
       change (wrap 8 (Z.shiftr 4096 8)) with 16. change (wrap 8 4096) with 0.
       cbn [app]. rewrite read_full_app2. cbn [bind]. change (be_val [16; 0]) with 4096.
       rewrite <- app_assoc. reflexivity. }
@@ -86,6 +86,8 @@ Proof.
     { rewrite !app_length, Hfl, E1. cbn [length].
       assert (length r3' <= length (tl' ++ rest))%nat.
       { clear - G1. unfold get_binary_len in G1. destruct (gbinaryShortTag t'); [inversion G1; subst; lia|].
+        destruct (gbinaryMiddleTag t').
+        { destruct (tl' ++ rest) as [|a l]; cbn in G1; try discriminate. inversion G1; subst. cbn [length]. lia. }
         destruct (tl' ++ rest) as [|a [|b l]]; cbn in G1; try discriminate. inversion G1; subst. cbn [length]. lia. }
       rewrite app_length in *. lia. }
     intros fuel2 Hf. destruct fuel2 as [|f2]; [lia|].
